@@ -117,3 +117,76 @@ pub fn real4(_: &impl T, a: u8) -> Uniq {
 pub trait G<X> {
     fn g(&self, a: u8) -> Val;
 }
+
+// ---------------------------------------------------------------- delegation / unmocking inventory (C15, C16)
+use std::pin::Pin;
+use std::rc::Rc;
+use std::sync::Arc;
+
+/// the common default body: a % 4 required-method calls, alternating r0 / r1, arguments a, a+1, ..
+fn body<D1: D + ?Sized>(d: &D1, name: &str, a: u8) -> Val {
+    user_panic_if_armed(2, "user:dflt");
+    let mut parts = vec![];
+    for j in 0..(a % 4) {
+        let arg = (a + j) % 8;
+        parts.push(if j % 2 == 0 { d.r0(arg).take() } else { d.r1(arg).take() });
+    }
+    Val::new(format!("{name}({a})[{}]", parts.join(",")))
+}
+
+#[unimock(api=DMock, unmock_with=[real_r0, _, _, real_u2(b, a), real_u3, _, _, _, _, _, _, real_mm])]
+pub trait D {
+    fn r0(&self, a: u8) -> Val;
+    fn r1(&self, a: u8) -> Val;
+    /// skipped by the macro, but occupies an unmock_with slot
+    fn assoc_d() -> u8
+    where
+        Self: Sized,
+    {
+        1
+    }
+    fn u2(&self, a: u8, b: u8) -> Val;
+    fn u3(&self, a: u8, b: u8) -> Val;
+    fn p_ref(&self, a: u8) -> Val {
+        body(self, "dflt14", a)
+    }
+    fn p_mut(&mut self, a: u8) -> Val {
+        body(self, "dflt15", a)
+    }
+    fn p_val(self, a: u8) -> Val
+    where
+        Self: Sized,
+    {
+        body(&self, "dflt16", a)
+    }
+    fn p_rc(self: Rc<Self>, a: u8) -> Val {
+        body(&*self, "dflt17", a)
+    }
+    fn p_arc(self: Arc<Self>, a: u8) -> Val {
+        body(&*self, "dflt18", a)
+    }
+    fn p_pin(self: Pin<&mut Self>, a: u8) -> Val {
+        body(&*self, "dflt19", a)
+    }
+    fn m_mut(&mut self, a: u8) -> Val;
+}
+
+pub fn real_r0(_: &impl D, a: u8) -> Val {
+    user_panic_if_armed(1, "user:real");
+    Val::new(format!("real10({a})"))
+}
+/// registered as `real_u2(b, a)`: explicit parameter expressions, no mock argument
+pub fn real_u2(x: u8, y: u8) -> Val {
+    Val::new(format!("real12({x},{y})"))
+}
+/// recursion through the mock: depth a
+pub fn real_u3(d: &impl D, a: u8, b: u8) -> Val {
+    if a == 0 {
+        Val::new(format!("base({b})"))
+    } else {
+        Val::new(format!("rec({})", d.u3(a - 1, b).take()))
+    }
+}
+pub fn real_mm(_: &mut impl D, a: u8) -> Val {
+    Val::new(format!("real20({a})"))
+}
